@@ -1124,7 +1124,9 @@ pub fn suite_ctl_records(out: &mut Out, tier: &str, rng: &mut Rng) {
             1 => {
                 // a last record whose length runs past the body
                 let p = rng.rbytes(0, 8);
-                recs.push(enc_record(1, 6 + p.len() + rng.range(1, 40) as usize, 0, 7, &p));
+                let excess = if rng.bool() { rng.range(1, 3) as usize } else { rng.range(1, 40) as usize };
+                let (flags, vendor) = *rng.pick(&[(1u8, 0u16), (1, 0), (3, 0), (1, 77)]);
+                recs.push(enc_record(flags, 6 + p.len() + excess, vendor, *rng.pick(&[7u16, 0, 1, 39, 20]), &p));
             }
             _ => {}
         }
